@@ -72,6 +72,34 @@ def ctor_grid(seed, tag, tier):
     return out
 
 
+def mk_any_cond(m, rng, cls, Rc, Dy, Dx, tag=""):
+    """cls 'nn': an NNControlGaussianConditional with control u (one row per conditional component); the reference
+    parameters M(u), b(u) are computed here from the network output (first Dy*Dx entries: M row-major, then Dy entries: b)"""
+    if cls != "nn":
+        return mk_cond(m, rng, cls, Rc, Dy, Dx, tag=tag)
+    Du = 2
+    S = gen.pd_batch(rng, 1, Dy)
+    W = rng.standard_normal((Du, Dy * (Dx + 1))); c0 = rng.standard_normal(Dy * (Dx + 1))
+    nn = m.nncond(Dy, Dx, Du, S, W, c0)
+    u = rng.standard_normal((Rc, Du))
+    o = u @ W + c0
+    return Obj(None, nn=nn, u=u, M=o[:, :Dy * Dx].reshape(Rc, Dy, Dx), b=o[:, Dy * Dx:], Sigma=np.tile(S, (Rc, 1, 1)), R=Rc, Dy=Dy, Dx=Dx, cls="nn")
+
+
+def do_transform(m, kind, c, p_reg):
+    """the conditional's own method: for the NN-controlled class `affine_*_transformation(p, u=u)`"""
+    if getattr(c, "nn", None) is not None:
+        return m.nn_call(kind, c.nn, c.u, p_reg)
+    return m.transform(kind, c.reg, p_reg)
+
+
+def nn_grid(seed, tag, tier):
+    out = [("nn", 1, 1, 2, 3), ("nn", 1, 3, 2, 2), ("nn", 3, 1, 1, 2)]
+    if tier != "quick":
+        out += [("nn", 1, 2, 3, 1), ("nn", 2, 1, 3, 3)]
+    return out
+
+
 def hd_grid(seed, tag, tier):
     """'/hd' cases: dimension 48-64 with variances ~1e-5 / 1e-6: every matrix is well conditioned, but determinants are far
     outside the float64 range (their logarithms are not)"""
@@ -104,10 +132,10 @@ def case_joint(prop, cls, Rc, Rx, Dy, Dx, tag=""):
     def fn(m):
         rng = gen.rng_path(m.seed, label)
         fails = []
-        c = mk_cond(m, rng, cls, Rc, Dy, Dx, tag=tag)
+        c = mk_any_cond(m, rng, cls, Rc, Dy, Dx, tag=tag)
         p = mk_pdf(m, rng, Rx, Dx, diag=("pdiag" in tag), cov_scale=(1e-5 if "hd" in tag else 1.0))      # tag '/pdiag': the prior is a GaussianDiagPDF
         upd_history(m, rng, c, p, "joint", tag)
-        j = m.transform("joint", c.reg, p.reg)
+        j = do_transform(m, "joint", c, p.reg)
         params = dict(cls=cls, Rc=Rc, Rx=Rx, Dy=Dy, Dx=Dx)
         if m.regs.get(j) is None:
             fails.append(failure(prop, f"affine_joint_transformation:{cls}", f"raised: {m.impl[-1][1:]}", params=params))
@@ -145,10 +173,10 @@ def case_marginal(prop, cls, Rc, Rx, Dy, Dx, tag=""):
     def fn(m):
         rng = gen.rng_path(m.seed, label)
         fails = []
-        c = mk_cond(m, rng, cls, Rc, Dy, Dx, tag=tag)
+        c = mk_any_cond(m, rng, cls, Rc, Dy, Dx, tag=tag)
         p = mk_pdf(m, rng, Rx, Dx, diag=("pdiag" in tag), cov_scale=(1e-5 if "hd" in tag else 1.0))      # tag '/pdiag': the prior is a GaussianDiagPDF
         upd_history(m, rng, c, p, "marginal", tag)
-        mg = m.transform("marginal", c.reg, p.reg)
+        mg = do_transform(m, "marginal", c, p.reg)
         params = dict(cls=cls, Rc=Rc, Rx=Rx, Dy=Dy, Dx=Dx)
         if m.regs.get(mg) is None:
             fails.append(failure(prop, f"affine_marginal_transformation:{cls}", f"raised: {m.impl[-1][1:]}", params=params))
@@ -164,7 +192,7 @@ def case_marginal(prop, cls, Rc, Rx, Dy, Dx, tag=""):
         fail_if(fails, prop, f"affine_marginal_transformation:{cls}", "marginal(y) != N(y; M mu + b, Sigma_y + M Sigma_x M')",
                 got, exp, params=params)
         # equals the y-marginal of the joint transformation
-        j = m.transform("joint", c.reg, p.reg)
+        j = do_transform(m, "joint", c, p.reg)
         if m.regs.get(j) is not None:
             mj = m.get_marginal(j, list(range(Dx, Dx + Dy)))
             ev2 = m.evalln(mj, yr)
@@ -180,10 +208,10 @@ def case_conditional(prop, cls, Rc, Rx, Dy, Dx, tag=""):
     def fn(m):
         rng = gen.rng_path(m.seed, label)
         fails = []
-        c = mk_cond(m, rng, cls, Rc, Dy, Dx, tag=tag)
+        c = mk_any_cond(m, rng, cls, Rc, Dy, Dx, tag=tag)
         p = mk_pdf(m, rng, Rx, Dx, diag=("pdiag" in tag), cov_scale=(1e-5 if "hd" in tag else 1.0))      # tag '/pdiag': the prior is a GaussianDiagPDF
         upd_history(m, rng, c, p, "conditional", tag)
-        post = m.transform("conditional", c.reg, p.reg)
+        post = do_transform(m, "conditional", c, p.reg)
         params = dict(cls=cls, Rc=Rc, Rx=Rx, Dy=Dy, Dx=Dx)
         if m.regs.get(post) is None:
             fails.append(failure(prop, f"affine_conditional_transformation:{cls}", f"raised: {m.impl[-1][1:]}", params=params))
@@ -207,7 +235,7 @@ def case_conditional(prop, cls, Rc, Rx, Dy, Dx, tag=""):
                     exp[k * N + n, t] = lyx + lx - lpy     # Bayes' rule
         fail_if(fails, prop, f"affine_conditional_transformation:{cls}", "p(x|y) p(y) != p(y|x) p(x)", got, exp, params=params)
         # round trips, component by component
-        mg = m.transform("marginal", c.reg, p.reg)
+        mg = do_transform(m, "marginal", c, p.reg)
         if m.regs.get(mg) is not None:
             for k in range(min(Rc * Rx, 2)):
                 ci, xi = k // Rx, k % Rx
@@ -328,7 +356,7 @@ def case_info(prop, cls, Rc, Rx, Dy, Dx, tag="", zero_M=False):
         # symmetry under the conditional transformation (single components)
         if Rc == 1 and Rx == 1 and m.regs.get(mi) is not None:
             post = m.transform("conditional", c.reg, p.reg)
-            mg = m.transform("marginal", c.reg, p.reg)
+            mg = do_transform(m, "marginal", c, p.reg)
             if m.regs.get(post) is not None and m.regs.get(mg) is not None:
                 mi2 = m.transform("mutual_information", post, mg)
                 if m.regs.get(mi2) is not None:
